@@ -39,13 +39,27 @@ def _hook(d):
     return d
 
 
+EVAL_ORDER = {
+    "call": ["func", "args"], "mcall": ["recv", "args"], "binary": ["l", "r"], "assign": ["r", "l"],
+    "if": ["cond", "then", "else"], "match": ["scrut", "arms"], "arm": ["pat", "guard", "body"],
+    "while": ["cond", "body"], "for": ["iter", "pat", "body"], "let": ["init", "pat", "else"],
+    "let_expr": ["e", "pat"], "index": ["base", "index"], "struct": ["fields", "rest"],
+    "closure": ["inputs", "body"], "range": ["from", "to"], "repeat": ["e", "len"], "macro": ["args", "repeat"],
+}
+
+
 def children(n):
-    """direct child Nodes (in source order as emitted by bt-ast)."""
+    """direct child Nodes in evaluation order (serde_json sorts keys, so the order is fixed per kind here)."""
     out = []
-    for key, v in n.items():
+    order = EVAL_ORDER.get(n.get("k"))
+    if order is not None:
+        keys = [k for k in order if k in n] + [k for k in n if k not in order]
+    else:
+        keys = list(n.keys())
+    for key in keys:
         if key in CHILD_KEYS_SKIP:
             continue
-        _collect(v, key, out)
+        _collect(n[key], key, out)
     return out
 
 
@@ -559,6 +573,24 @@ def _is_ancestor_via(anc, key, b):
     return False
 
 
+def toplevel_stmt(n):
+    """the direct child statement of the function body containing n"""
+    fn = n.fn
+    body = fn.body if fn is not None else None
+    x = n
+    while x is not None and isinstance(x, Node):
+        if x.parent is body:
+            return x
+        x = x.parent
+    return None
+
+
+def precedes_toplevel(a, b):
+    """the top-level statement holding a comes strictly before the one holding b (a may be conditional inside it)"""
+    ta, tb = toplevel_stmt(a), toplevel_stmt(b)
+    return ta is not None and tb is not None and ta.order < tb.order and ta is not tb
+
+
 def stmt_of(n):
     """the statement (let / expr_stmt) node containing n, innermost."""
     x = n
@@ -626,9 +658,9 @@ def resolve_local(fn, name, at=None, _cache={}):
     """binding sites for `name` visible in fn (all of them; callers usually
     require exactly one)."""
     key = id(fn)
-    if key not in _cache:
-        _cache[key] = bindings(fn)
-    return _cache[key].get(name, [])
+    if key not in _cache or _cache[key][0] is not fn:
+        _cache[key] = (fn, bindings(fn))
+    return _cache[key][1].get(name, [])
 
 
 def binding_before(fn, name, at):
@@ -636,9 +668,29 @@ def binding_before(fn, name, at):
     best = None
     for s in resolve_local(fn, name):
         o = -1 if s[0] == "param" else s[1].order
+        if s[0] != "param" and not _in_scope(s, at):
+            continue
         if o < at.order and (best is None or o > best[0]):
             best = (o, s)
     return best[1] if best else None
+
+
+def _in_scope(site, at):
+    kind, node = site[0], site[1]
+    if kind == "let":
+        scope = node.parent
+        # the initialiser itself is outside the scope
+        if _is_ancestor(node, at):
+            return False
+    elif kind in ("arm", "for", "closure"):
+        scope = node
+    elif kind == "iflet":
+        scope = node.parent
+        while scope is not None and isinstance(scope, Node) and scope.k not in ("if", "while"):
+            scope = getattr(scope, "parent", None)
+    else:
+        return True
+    return scope is not None and _is_ancestor(scope, at)
 
 
 def sha_file(path):
